@@ -93,6 +93,11 @@ def gen(rng, op: str) -> ops.OpCase:
     if op in ("layer_norm", "rms_norm"):
         shape = tuple(rng.sample(P, rng.randint(2, 4)))
         nn_ = rng.randint(1, 2)
+        if rng.random() < 0.3:
+            k_ = rng.choice([2, 3, 4, 5])
+            shape = tuple(rng.sample(P, rng.randint(1, 2))) + ((k_, k_) if rng.random() < 0.7 else (k_, k_, k_))   # equal sizes
+            nn_ = len(shape) - rng.randint(1, len(shape) - 2) if len(shape) > 3 else 2
+            nn_ = max(2, min(nn_, len(shape) - 1))
         shapes = {"input": shape, "weight": shape[-nn_:]}
         if op == "layer_norm":
             shapes["bias"] = shape[-nn_:]
